@@ -208,7 +208,8 @@ pub fn cfgs_c15() -> Vec<SrvCfg> {
 pub fn cfgs_c20() -> Vec<SrvCfg> {
     let p = &["C20"];
     let mut v = vec![];
-    for cap in [1usize, 2, 3] {
+    // (values, info-hashes, peers per hash): symmetric 1..3 and two asymmetric shapes
+    for (cap, cap_h, cap_p) in [(1usize, 1usize, 1usize), (2, 2, 2), (3, 3, 3), (2, 1, 3), (2, 3, 1)] {
         let mut a = vec![];
         for t in [3u8, 4, 0, 2] {
             a.push(Act::Get { src: 0, target: t, seq: None });
@@ -236,17 +237,19 @@ pub fn cfgs_c20() -> Vec<SrvCfg> {
             a.push(Act::AnnounceSigned { src: 0, ih, key, dt: 0, sig_ok: true, tok: Tok::Fresh });
         }
         let mut c = base(
-            match cap {
-                1 => "c20-cap1",
-                2 => "c20-cap2",
-                _ => "c20-cap3",
+            match (cap, cap_h, cap_p) {
+                (1, _, _) => "c20-cap1",
+                (2, 2, 2) => "c20-cap2",
+                (3, _, _) => "c20-cap3",
+                (2, 1, 3) => "c20-hashes1-peers3",
+                _ => "c20-hashes3-peers1",
             },
             a,
             p,
         );
         c.cap_values = cap;
-        c.cap_hashes = cap;
-        c.cap_peers = cap;
+        c.cap_hashes = cap_h;
+        c.cap_peers = cap_p;
         v.push(c);
     }
     v
@@ -271,6 +274,10 @@ pub fn run_cfgs(cfgs: Vec<SrvCfg>, depth: usize, max_states: usize) -> Partial {
         ));
         out.merge(part);
     }
+    out
+}
+
+fn with_witnesses(mut out: Partial) -> Partial {
     let acc = out.count("writes_accepted");
     let rej = out.count("writes_rejected");
     out.witness("a write was accepted", acc > 0);
@@ -322,7 +329,7 @@ pub fn def_c03() -> CheckDef {
         },
         shards: |_| 1,
         run: |tier, _, _, _| {
-            let mut out = run_cfgs(cfgs_c03(), if tier.is_quick() { 6 } else { 8 }, if tier.is_quick() { 400_000 } else { 3_000_000 });
+            let mut out = with_witnesses(run_cfgs(cfgs_c03(), if tier.is_quick() { 6 } else { 8 }, if tier.is_quick() { 400_000 } else { 3_000_000 }));
             sample(&mut out, cfgs_c03().remove(1), &[0, 0, 4, 11, 0]);
             out
         },
@@ -341,7 +348,7 @@ pub fn def_c04() -> CheckDef {
         },
         shards: |_| 1,
         run: |tier, _, _, _| {
-            let mut out = run_cfgs(cfgs_c04(), if tier.is_quick() { 6 } else { 12 }, if tier.is_quick() { 400_000 } else { 3_000_000 });
+            let mut out = with_witnesses(run_cfgs(cfgs_c04(), if tier.is_quick() { 6 } else { 12 }, if tier.is_quick() { 400_000 } else { 3_000_000 }));
             sample(&mut out, cfgs_c04().remove(0), &[0, 0, 9, 7, 3]);
             out
         },
@@ -360,7 +367,7 @@ pub fn def_c15() -> CheckDef {
         },
         shards: |_| 1,
         run: |tier, _, _, _| {
-            let mut out = run_cfgs(cfgs_c15(), if tier.is_quick() { 6 } else { 8 }, if tier.is_quick() { 400_000 } else { 4_000_000 });
+            let mut out = with_witnesses(run_cfgs(cfgs_c15(), if tier.is_quick() { 6 } else { 8 }, if tier.is_quick() { 400_000 } else { 4_000_000 }));
             sample(&mut out, cfgs_c15().remove(0), &[0, 0, 19, 19, 3]);
             out
         },
@@ -369,5 +376,5 @@ pub fn def_c15() -> CheckDef {
 }
 
 pub fn run_c20_stores(tier: Tier) -> Partial {
-    run_cfgs(cfgs_c20(), if tier.is_quick() { 5 } else { 6 }, if tier.is_quick() { 300_000 } else { 3_000_000 })
+    run_cfgs(cfgs_c20(), if tier.is_quick() { 4 } else { 6 }, if tier.is_quick() { 600_000 } else { 6_000_000 })
 }
